@@ -201,7 +201,7 @@ def sub_idl(ctx):
     cp = ctx.path("cases_idl.ndjson")
     write_cases(cp, cases)
     tp = ctx.path("idl.ndjson")
-    r = ctx.run_drv(drv, ["-mode", "idl", "-cases", cp, "-n", str(ctx.pick(1000, 30000)), "-seed", str(ctx.seed), "-out", tp], timeout=900)
+    r = ctx.run_drv(drv, ["-mode", "idl", "-cases", cp, "-n", str(ctx.pick(1000, 15000)), "-seed", str(ctx.seed), "-out", tp], timeout=900)
     ctx.extra["idl_driver"] = json.loads(r.stdout.strip().splitlines()[-1])
     traces = split_traces(tp)
     dup_accept = premature = 0
@@ -232,9 +232,12 @@ def sub_idl(ctx):
 
 
 def idl_viol(ctx, evs, k, tag):
+    size = next((x["size"] for x in evs if x["op"] == "New"), 0)
+    case = {"k": "idlx", "size": size, "tsize": evs[0]["tsize"], "q": evs[0]["q"],
+            "steps": [{f: e[f] for f in ("op", "q", "i", "len", "cls", "ts") if f in e} for e in evs[2:k + 1] if e["op"] in ("Req", "Got")]}
     ctx.violation(tag, idl_sig(evs, k, tag),
                   "InfoDownloader violates %s at event %d of a recorded history: %s" % (tag, k, json.dumps(evs[k])[:300]),
-                  {"history": evs[:k + 1]})
+                  {"kind": "idl", "case": case, "history": evs[:k + 1]})
 
 
 # ----------------------------------------------------------------------------------------------- magnet
@@ -244,7 +247,7 @@ def sub_magnet(ctx):
     cp = ctx.path("cases_mag.ndjson")
     write_cases(cp, ctx.gen["mag"])
     tp = ctx.path("mag.ndjson")
-    r = ctx.run_drv(drv, ["-mode", "mag", "-cases", cp, "-n", str(ctx.pick(500, 20000)), "-seed", str(ctx.seed), "-out", tp], timeout=600)
+    r = ctx.run_drv(drv, ["-mode", "mag", "-cases", cp, "-n", str(ctx.pick(500, 10000)), "-seed", str(ctx.seed), "-out", tp], timeout=600)
     ctx.extra["magnet_driver"] = json.loads(r.stdout.strip().splitlines()[-1])
     lines = [json.loads(l) for l in open(tp)]
     order_changed = 0
@@ -265,7 +268,9 @@ def mag_viol(ctx, evs, k, tag):
     sig = "magnet tag=%s dir=%s hf=%s xt=%s enc=%s name=%s trform=%s tiers=%s peers=%s must=%d err=%d" % (
         tag, e["dir"], c["hf"], c["xt"], c["enc"], c["name"], c["trform"], "-".join(map(str, c["tiers"])),
         "+".join(c["peers"]) or "none", e["must"], e["err"])
-    ctx.violation(tag, sig, "magnet %s: %s on %s" % (e["dir"], tag, e["link"][:300]), {"line": e})
+    case = dict(c)
+    case["k"] = "mag"
+    ctx.violation(tag, sig, "magnet %s: %s on %s" % (e["dir"], tag, e["link"][:300]), {"kind": "magnet", "case": case, "line": e})
 
 
 # ----------------------------------------------------------------------------------------------- e2e
@@ -274,29 +279,33 @@ NO_RESTART = ("drop", "junk", "proto")
 
 
 def pick_e2e(ctx, cases, n):
-    """Deterministic (seeded) choice of n scenarios; the classes that matter are always represented."""
+    """Deterministic (seeded) choice of n scenarios; the classes that matter are always replayed:
+    core  <<liar, honest>> with one slot and a late honest peer - the liar holds the only slot when the honest peer
+          shows up, for EVERY liar policy (each way of losing a slot must hand it on: C13.live);
+    stall vectors whose slot holders all leave without the ut_metadata handler (the listed finding);
+    priv  private info dictionaries; cover = at least one scenario per policy; the rest is a seeded sample."""
     rnd = random.Random(ctx.seed)
     for i, c in enumerate(cases):
         c["id"] = i
-    must, rest = [], []
+    core, stall, priv, rest = [], [], [], []
     for c in cases:
         pols = c["pols"]
-        stallish = c["late"] == 1 and "honest" in pols and all(p in NO_RESTART for p in pols[:c["par"]])
-        (must if stallish else rest).append(c)
-    # the private-info scenarios (honest and forged) are always replayed
-    priv = [c for c in rest if c["priv"] == 1 and c["pols"][0] in ("honest", "total", "forge", "garbage")]
-    rnd.shuffle(must)
-    rnd.shuffle(rest)
-    keep_must = must[:max(2, n // 12)]
-    # one scenario per policy at least
-    seen, cover = set(), []
-    for c in rest:
-        new = [p for p in c["pols"] if p not in seen]
-        if new:
-            cover.append(c)
+        if len(pols) == 2 and pols[1] == "honest" and c["par"] == 1 and c["late"] == 1 and c["nb"] == 2:
+            core.append(c)
+        elif c["late"] == 1 and "honest" in pols and all(p in NO_RESTART for p in pols[:c["par"]]):
+            stall.append(c)
+        elif c["priv"] == 1 and pols[0] in ("honest", "total", "forge", "garbage"):
+            priv.append(c)
+        else:
+            rest.append(c)
+    for l in (stall, priv, rest):
+        rnd.shuffle(l)
+    chosen = core + stall[:max(2, n // 25)] + priv[:max(3, n // 20)]
+    seen = set(p for c in chosen for p in c["pols"])
+    for c in rest:                      # one scenario per policy at least
+        if any(p not in seen for p in c["pols"]):
+            chosen.append(c)
             seen.update(c["pols"])
-    rnd.shuffle(priv)
-    chosen = keep_must + priv[:max(3, n // 20)] + [c for c in cover if c not in priv]
     ids = {c["id"] for c in chosen}
     for c in rest:
         if len(chosen) >= n:
@@ -351,7 +360,7 @@ def live_text(evs):
 
 
 def sub_e2e(ctx):
-    cases = pick_e2e(ctx, ctx.gen["e2e"], ctx.pick(70, 1200))
+    cases = pick_e2e(ctx, ctx.gen["e2e"], ctx.pick(70, 900))
     if ctx.cex_scenario:
         c = dict(ctx.cex_scenario)
         c["id"] = 100000
@@ -383,9 +392,9 @@ def e2e_viol(ctx, evs, k, tag):
         # a missed deadline may be the machine, not the code: such scenarios are re-run with a threefold deadline first
         ctx.e2e_confirm.append(scenario)
     elif tag == "C13.live":
-        ctx.violation(tag, sig, live_text(evs), {"scenario": scenario, "trace": evs})
+        ctx.violation(tag, sig, live_text(evs), {"kind": "e2e", "case": scenario, "trace": evs})
     else:
-        ctx.violation(tag, sig, "end-to-end scenario violates %s: %s" % (tag, json.dumps(evs[k])[:300]), {"scenario": scenario, "trace": evs})
+        ctx.violation(tag, sig, "end-to-end scenario violates %s: %s" % (tag, json.dumps(evs[k])[:300]), {"kind": "e2e", "case": scenario, "trace": evs})
 
 
 def e2e_confirm(ctx):
@@ -396,6 +405,32 @@ def e2e_confirm(ctx):
     before = len(ctx.violations) + len(ctx.known_hits)
     judge_all(ctx, [Rec("e2e_confirm", traces, e2e_viol)])
     ctx.extra["e2e_live_rerun"] = "%d scenario(s) re-run with the threefold deadline" % len(ctx.e2e_confirm)
+
+
+# ----------------------------------------------------------------------------------------------- replay
+
+def replay(ctx):
+    d = json.load(open(ctx.replay))["detail"]
+    kind, case = d["kind"], d["case"]
+    ctx.cex_scenario = None
+    if kind == "e2e":
+        case = dict(case)
+        case["id"] = 0
+        ctx.e2e_byid = {0: case}
+        ctx.e2e_confirm = []
+        ctx.e2e_confirming = True          # report directly
+        _, traces = record_e2e(ctx, [case], "replay", 3 * 6000, 1)
+        rec = Rec("e2e", traces, e2e_viol)
+    else:
+        cp = ctx.path("replay_case.ndjson")
+        write_cases(cp, [case])
+        tp = ctx.path("replay.ndjson")
+        ctx.run_drv(ctx.drv, ["-mode", "idl" if kind == "idl" else "mag", "-cases", cp, "-n", "0", "-seed", str(ctx.seed), "-out", tp])
+        if kind == "idl":
+            rec = Rec("idl", [evs for _, evs in split_traces(tp)], idl_viol)
+        else:
+            rec = Rec("magnet", [[json.loads(l) for l in open(tp)]], mag_viol, perline=True)
+    judge_all(ctx, [rec])
 
 
 # ----------------------------------------------------------------------------------------------- entry
@@ -416,6 +451,8 @@ def run(ctx):
                         "confirmed by a re-run with the threefold deadline before it is reported",
                         "lower-case base32 info-hashes may be refused (only a wrong hash would be a violation)"]
     ctx.drv = ctx.build_go("c13")
+    if getattr(ctx, "replay", None):       # re-run the real code on the recorded case only, TLC judges again
+        return replay(ctx)
     only = [x for x in os.environ.get("C13_ONLY", "").split(",") if x]     # development aid: run selected sub-checks
     ctx.cex_scenario = None
     recs = []
